@@ -105,4 +105,59 @@ example : Budget { required := 1, maxSteps := fun _ => some 3, rStep := 0, rSucc
     { (default : Agent) with steps := 2, ended := false } := by
   intro n hn; simp at hn; subst hn; simp
 
+/-! ## a final status is never shown on an open episode -/
+
+/-- the record never carries a final status (Success, Fail, TimeoutReached) while `ended = false` -/
+def FinalMeansEnded (a : Agent) : Prop := a.status.terminal = true → a.ended = true
+
+theorem startStatus_not_terminal (r : Role) : (startStatus r).terminal = false := by cases r <;> rfl
+
+theorem finalMeansEnded_payOne (S : Settings) (sa : Bool) (a : Agent) (h : FinalMeansEnded a) : FinalMeansEnded (payOne S sa a) := by
+  unfold payOne
+  split
+  · exact h
+  · rename_i hg
+    have he : a.ended = true := by
+      cases hc : a.ended with
+      | true => rfl
+      | false => simp [hc] at hg
+    split
+    · intro _; exact he
+    · split <;> (intro _; exact he)
+    · exact h
+
+theorem finalMeansEnded_bstep (S : Settings) (a b : Agent) (hs : BStep S a b) (h : FinalMeansEnded a) : FinalMeansEnded b := by
+  induction hs with
+  | refl a => exact h
+  | pay a sa => exact finalMeansEnded_payOne S sa a h
+  | record a act => exact h
+  | reset a v _ => intro ht; simp [resetOne, startStatus_not_terminal] at ht
+  | restart a => exact h
+  | trans _ _ ih1 ih2 => exact ih2 (ih1 h)
+
+theorem finalMeansEnded_own (S : Settings) (a b : Agent) (hs : OwnStep S a b) (h : FinalMeansEnded a) : FinalMeansEnded b := by
+  cases hs with
+  | req => exact h
+  | play act v roll e he hterm => intro ht; exact hterm ht
+
+/-- **For every history**: whenever an agent's status is Success, Fail or TimeoutReached its episode
+is marked ended - so such a status is never reported with `end = False`, whatever was delivered
+before (rewards paid after departures, resets, refused actions, faults). -/
+theorem C04_final_status_means_ended (S : Settings) (es : List Ev) :
+    ∀ c a, (run S init es).1.agents c = some a → FinalMeansEnded a := by
+  suffices H : ∀ (s : St), (∀ c a, s.agents c = some a → FinalMeansEnded a) →
+      ∀ c a, (run S s es).1.agents c = some a → FinalMeansEnded a by
+    exact H init (by intro c a h; simp [init] at h)
+  induction es with
+  | nil => intro s h; simpa [run] using h
+  | cons e es ih =>
+    intro s h
+    simp only [run]
+    refine ih _ ?_
+    intro c a' ha'
+    rcases deliver_trace S s e c a' ha' with ⟨a, ha, hb⟩ | ⟨_, a, a1, ha, ho, hb⟩ | ⟨_, _, n, r, v, hb⟩
+    · exact finalMeansEnded_bstep S a a' hb (h c a ha)
+    · exact finalMeansEnded_bstep S a1 a' hb (finalMeansEnded_own S a a1 ho (h c a ha))
+    · exact finalMeansEnded_bstep S _ a' hb (by intro ht; simp [newAgent, startStatus_not_terminal] at ht)
+
 end NSG.Coord
